@@ -1037,3 +1037,131 @@ Proof.
   - intros u Hu. rewrite Tp, Tps. apply Wk in Hu. destruct (e_wprog _ _ _ R u Hu) as [A|A]; [left; exact A|right; apply Pg; exact A].
   - intros q H. apply Pg. apply (e_exited _ _ _ R q H).
 Qed.
+
+Lemma reserved_not_pipe : forall c b q, SInv c -> b mod 4096 = 0 -> slab_get (c_sl c) b <> Some (HPipe q).
+Proof.
+  intros c b q S Hb G. apply slab_get_some in G. destruct G as [R E].
+  apply (s_res c S b R) in Hb. rewrite Hb in E. discriminate E.
+Qed.
+
+Lemma hinstrs_hd : forall h d, exists j, hinstrs h d = [j] /\ (eqi j \/ exists q, h = HPipe q /\ j = ILock (MPq q) (LPqHandler q d)).
+Proof. intros [w| |c|q] d; eexists; (split; [reflexivity|]); try (left; exact Logic.I). right. eauto. Qed.
+
+Lemma norm_E : forall fuel st s acc k ev s1 acc1 k1 ev1 m pd,
+  XInv st -> CInv (core (NS st s acc k)) -> SlInv (NS st s acc k) -> ERel pd (NS st s acc k) m ->
+  norm fuel s acc k ev = (s1, acc1, k1, ev1) -> ERel pd (NS st s1 acc1 k1) m.
+Proof.
+  induction fuel as [|f IH]; intros st s acc k ev s1 acc1 k1 ev1 m pd X I S R H; cbn [norm] in H.
+  - inversion H; subst. exact R.
+  - assert (StepI : forall s' acc' k', f_norm1 (core (NS st s acc k)) = Some (set_norm (core (NS st s acc k)) s' acc' k') ->
+                                      CInv (core (NS st s' acc' k'))).
+    { intros s' acc' k' E. eapply pres_norm1 in E; eauto.
+      eapply CInv_ceq; [|exact E]. eapply ceq_trans; [apply NS_ceq|apply NS_NS]. }
+    assert (Simple : forall i r new acc', k = i :: r -> norm_head i -> pushes new = [] -> (forall j, In j new -> eqi j) ->
+              cont_dels new = dels_of i -> ERel pd (NS st s acc' (new ++ r)) m).
+    { intros i r new acc' -> Hi Hp Hq Hd. apply (e_NS_step pd st s acc i r s acc' new m X R Hi Hp).
+      - intros j Hj. apply Hq. destruct new; [destruct Hj|right; exact Hj].
+      - intros j E. left. apply Hq. destruct new as [|n0 new']; [discriminate E|]. inversion E; subst. left. reflexivity.
+      - intros q d [m0 E]. exfalso. destruct new as [|n0 new']; [discriminate E|]. inversion E; subst. exact (Hq _ (or_introl eq_refl)).
+      - auto.
+      - intros y Hin. rewrite Hd in Hin. exact Hin.
+      - intros y q Hin G. left. split; [|exact G]. rewrite cont_dels_app, Hd. rewrite cont_dels_cons in Hin. exact Hin. }
+    destruct k as [|i r]; [inversion H; subst; exact R|].
+    destruct i as [c| |[|bm bms]|bm [|a ls]| |[|b bs]|[|b bs]| | | | | | | |];
+      try (inversion H; subst; exact R).
+    + eapply IH; [exact X| | | |exact H].
+      * apply StepI. reflexivity.
+      * eapply sl_NS_frame; [exact S| |]; reflexivity.
+      * apply (Simple _ r (@nil instr) acc eq_refl Logic.I eq_refl); [intros j []|reflexivity].
+    + eapply IH; [exact X| | | |exact H].
+      * apply StepI. reflexivity.
+      * eapply sl_NS_frame; [exact S| |]; reflexivity.
+      * apply (Simple _ r (@nil instr) acc eq_refl Logic.I eq_refl); [intros j []|reflexivity].
+    + eapply IH; [exact X| | | |exact H].
+      * apply StepI. reflexivity.
+      * eapply sl_NS_frame; [exact S| |]; reflexivity.
+      * apply (Simple _ r [IHandlers acc] [] eq_refl Logic.I eq_refl); [|reflexivity].
+        intros j [<-|[]]. exact Logic.I.
+    + eapply IH; [exact X| | | |exact H].
+      * apply StepI. reflexivity.
+      * eapply sl_NS_frame; [exact S| |]; reflexivity.
+      * apply (Simple _ r (@nil instr) acc eq_refl Logic.I eq_refl); [intros j []|reflexivity].
+    + destruct (slab_get s b) as [h|] eqn:E.
+      * inversion H; subst s1 acc1 k1 ev1. destruct (hinstrs_plain h false) as [Dh Ph].
+        destruct (hinstrs_hd h false) as [j0 [Ej Hj0]].
+        replace (hinstrs h false ++ IHandlers bs :: r) with ((hinstrs h false ++ [IHandlers bs]) ++ r) by (rewrite <- app_assoc; reflexivity).
+        apply (e_NS_step pd st s acc _ r s acc _ m X R Logic.I).
+        -- rewrite pushes_app, Ph. reflexivity.
+        -- rewrite Ej. intros j [<-|[]]. exact Logic.I.
+        -- rewrite Ej. intros j E0. inversion E0; subst j. destruct Hj0 as [A|[q [_ A]]]; [left; exact A|right; exists q, false; exact A].
+        -- rewrite Ej. intros q d [m0 E0]. cbn in E0. injection E0 as E0. destruct Hj0 as [A|[q0 [Eh A]]]; [rewrite E0 in A; destruct A|].
+           rewrite E0 in A. injection A as A1 A2 A3. subst q0 d. rewrite Eh in E.
+           assert (Gb : slab_get (sl (NS st s acc (IHandlers (b :: bs) :: r))) b = Some (HPipe q)) by exact E.
+           split; [|split; [|intro D; discriminate D]].
+           ++ destruct (pexists (pps st q)) eqn:Ex; [reflexivity|exfalso]. destruct (e_noex _ _ _ R q Ex) as [Z0 _]. exact (Z0 b Gb).
+           ++ destruct (memZ q (m14_term m)) eqn:Et; [exfalso|reflexivity]. destruct (e_term _ _ _ R q Et) as [Z0 _]. exact (Z0 b Gb).
+        -- auto.
+        -- intros y Hin. rewrite cont_dels_app, Dh in Hin. destruct Hin.
+        -- intros y q Hin G. left. split; [|exact G]. rewrite cont_dels_app, cont_dels_app, Dh. rewrite cont_dels_cons in Hin. exact Hin.
+      * eapply IH; [exact X| | | |exact H].
+        -- apply StepI. cbn. unfold updN, th, main. cbn. rewrite E. reflexivity.
+        -- eapply sl_NS_frame; [exact S| |]; reflexivity.
+        -- apply (Simple _ r [IHandlers bs] acc eq_refl Logic.I eq_refl); [|reflexivity].
+           intros j [<-|[]]. exact Logic.I.
+    + eapply IH; [exact X| | | |exact H].
+      * apply StepI. reflexivity.
+      * eapply sl_NS_frame; [exact S| |]; reflexivity.
+      * apply (Simple _ r (@nil instr) acc eq_refl Logic.I eq_refl); [intros j []|reflexivity].
+    + destruct (wh_del s b) as [[h s']|] eqn:E.
+      * inversion H; subst s1 acc1 k1 ev1. pose proof E as E0. apply wh_del_some in E0. destruct E0 as [Hb [Gb ->]].
+        destruct (hinstrs_plain h true) as [Dh Ph]. destruct (hinstrs_hd h true) as [j0 [Ej Hj0]].
+        assert (Pin : In b (pipeline (NS st s acc (IDels (b :: bs) :: r)))).
+        { unfold pipeline. apply in_or_app. right. replace (tcont (thr (NS st s acc (IDels (b :: bs) :: r)) main)) with (IDels (b :: bs) :: r) by (unfold NS; thr_simpl).
+          rewrite cont_dels_cons. left. reflexivity. }
+        pose proof (sl_nodup _ S) as Nd. unfold pipeline in Nd.
+        replace (tcont (thr (NS st s acc (IDels (b :: bs) :: r)) main)) with (IDels (b :: bs) :: r) in Nd by (unfold NS; thr_simpl).
+        change (dl (NS st s acc (IDels (b :: bs) :: r))) with (dl st) in Nd. rewrite cont_dels_cons in Nd. cbn [dels_of] in Nd.
+        replace (hinstrs h true ++ IDels bs :: r) with ((hinstrs h true ++ [IDels bs]) ++ r) by (rewrite <- app_assoc; reflexivity).
+        apply (e_NS_step pd st s acc _ r (slab_remove s b) acc _ m X R Logic.I).
+        -- rewrite pushes_app, Ph. reflexivity.
+        -- rewrite Ej. intros j [<-|[]]. exact Logic.I.
+        -- rewrite Ej. intros j E0. inversion E0; subst j. destruct Hj0 as [A|[q [_ A]]]; [left; exact A|right; exists q, true; exact A].
+        -- rewrite Ej. intros q d [m0 E0]. cbn in E0. injection E0 as E0. destruct Hj0 as [A|[q0 [Eh A]]]; [rewrite E0 in A; destruct A|].
+           rewrite E0 in A. injection A as A1 A2 A3. subst q0 d. rewrite Eh in Gb.
+           assert (Gb' : slab_get (sl (NS st s acc (IDels (b :: bs) :: r))) b = Some (HPipe q)) by exact Gb.
+           split; [|split].
+           ++ destruct (pexists (pps st q)) eqn:Ex; [reflexivity|exfalso]. destruct (e_noex _ _ _ R q Ex) as [Z0 _]. exact (Z0 b Gb').
+           ++ destruct (memZ q (m14_term m)) eqn:Et; [exfalso|reflexivity]. destruct (e_term _ _ _ R q Et) as [Z0 _]. exact (Z0 b Gb').
+           ++ intros _. split.
+              ** intros x Gx. destruct (Z.eq_dec x b) as [->|Nx]; [rewrite slab_get_remove_same in Gx; discriminate Gx|].
+                 rewrite slab_get_remove_other in Gx by exact Nx. apply Nx. apply (e_uniq _ _ _ R x b q Gx Gb').
+              ** intros u x Hin. destruct (sl_claim _ S x (HPipe q)) as [C1 C2]; [right; right; exists u; exact Hin|].
+                 assert (x = b) by (apply (e_uniq _ _ _ R x b q C1 Gb')). subst x. exact (C2 Pin).
+        -- intros y h0 G. destruct (Z.eq_dec y b) as [->|Ny]; [rewrite slab_get_remove_same in G; discriminate G|].
+           rewrite slab_get_remove_other in G by exact Ny. exact G.
+        -- intros y Hin. rewrite cont_dels_app, Dh in Hin. cbn in Hin. rewrite app_nil_r in Hin. right. exact Hin.
+        -- intros y q Hin G. destruct (Z.eq_dec y b) as [->|Ny].
+           ++ right. rewrite Gb in G. inversion G; subst h. destruct Hj0 as [A|[q0 [Eh A]]]; [|inversion Eh; subst q0; exists (MPq q); rewrite Ej, A; reflexivity].
+              exfalso. destruct (hinstrs_hd (HPipe q) true) as [j1 [Ej1 _]]. cbn in Ej, Ej1. inversion Ej; subst j0. exact A.
+           ++ left. split; [|rewrite slab_get_remove_other by exact Ny; exact G].
+              rewrite cont_dels_app, cont_dels_app, Dh. cbn [app cont_dels flat_map dels_of]. rewrite app_nil_r.
+              rewrite cont_dels_cons in Hin. cbn [dels_of] in Hin. rewrite !in_app_iff in *. cbn in Hin.
+              destruct Hin as [Hin|[[Hin|Hin]|Hin]]; auto. exfalso. apply Ny. symmetry. exact Hin.
+      * eapply IH; [exact X| | | |exact H].
+        -- apply StepI. cbn. unfold updN, th, main. cbn. rewrite E. reflexivity.
+        -- eapply (sl_NS_del st s acc b bs r); [exact S|left; reflexivity| |]; [rewrite cont_dels_cons; reflexivity|rewrite pushes_cons; reflexivity].
+        -- replace (IDels bs :: r) with ([IDels bs] ++ r) by reflexivity.
+           apply (e_NS_step pd st s acc _ r s acc _ m X R Logic.I).
+           ++ reflexivity.
+           ++ intros j [].
+           ++ intros j E0. inversion E0; subst. left. exact Logic.I.
+           ++ intros q d [m0 E0]. discriminate E0.
+           ++ auto.
+           ++ intros y Hin. cbn in Hin. rewrite app_nil_r in Hin. right. exact Hin.
+           ++ intros y q Hin G. left. split; [|exact G].
+              destruct (Z.eq_dec y b) as [->|Ny].
+              ** exfalso. apply wh_del_none in E. destruct E as [E|E]; [|rewrite E in G; discriminate G].
+                 eapply (reserved_not_pipe (core (NS st s acc (IDels (b :: bs) :: r))) b q (i_slab _ I) E). exact G.
+              ** rewrite cont_dels_cons in Hin. cbn [dels_of] in Hin. cbn [app]. rewrite cont_dels_cons. cbn [dels_of]. rewrite !in_app_iff in *. cbn in Hin.
+                 destruct Hin as [Hin|[[Hin|Hin]|Hin]]; auto. exfalso. apply Ny. symmetry. exact Hin.
+Qed.
